@@ -96,3 +96,15 @@ fn c21_trailing_delimiter_loses_empty_field() {
     assert_eq!(g, vec![b"a".to_vec()], "finding is stale: the trailing empty field is now returned");
     assert_eq!(without.row(0).unwrap().get(1), None, "finding is stale");
 }
+
+/// fixed (C07): ib_select1 / ib_select1_from truncated k to u32, so k >= 2^32
+/// selected the (k mod 2^32)-th interest bit instead of returning None.
+#[test]
+fn c07_select_rank_beyond_u32_is_none() {
+    use succinctly::json::JsonIndex;
+    let idx = JsonIndex::build(br#"{"a":[1,2,3],"b":"x"}"#);
+    let k = (1usize << 32) + 1;
+    assert!(idx.ib_select1(1).is_some());
+    assert_eq!(idx.ib_select1(k), None);
+    assert_eq!(idx.ib_select1_from(k, 0), None);
+}
